@@ -2009,8 +2009,12 @@ def post_all(ctx, results, replay=None):
         ctx.frame_results.append(d)
         if d['kind'] in ('frame', 'linearity'):
             n += 1
-            ctx.post(d['name'], [], BoolVal(bool(d['ok'])), kind='frame', witness=dict(site=IntVal(n)),
-                     replay=(lambda model, d=d: replay(d)) if replay is not None else None)
+            ob = ctx.post(d['name'], [], BoolVal(bool(d['ok'])), kind='frame', witness=dict(site=IntVal(n)),
+                          replay=(lambda model, d=d: replay(d)) if replay is not None else None)
+            # the ownership analysis is conservative (may-alias): a failed site means "cannot show that only fresh objects are written", which a
+            # harmless restructuring can cause as well; it is reported as a violation only when the native before / after probe confirms an effect
+            ob.meta['conservative'] = True
+            ob.meta['replay_without_model'] = True
         elif d['kind'] == 'assumed':
             ctx.trust('frame checker: ' + d['detail'])
         elif d['kind'] == 'undecided':
